@@ -174,6 +174,11 @@ ObsPost(e) ==
      ELSE UNCHANGED monvars
   ELSE UNCHANGED monvars
 
+\* After the error return the caller went on reading and got, as application data,
+\* bytes that the rejected frame carried in its payload.
+ObsAfter(e) ==
+  IF mode = "violated" THEN Fail("C15/delivered-after/" \o vcls) ELSE Fail("C06/harness/after-without-violation")
+
 ObsPanic(e) == Fail((IF hasv THEN "C15/panic/" ELSE "C06/panic/") \o mapi)
 
 \* End of a run.  A run that neither reported a justified error nor reached
@@ -207,6 +212,7 @@ Obs(e) ==
     [] e.ev = "Ctl"    -> UNCHANGED monvars
     [] e.ev = "Chunk"  -> UNCHANGED monvars
     [] e.ev = "Post"   -> ObsPost(e)
+    [] e.ev = "After"  -> ObsAfter(e)
     [] e.ev = "Panic"  -> ObsPanic(e)
     [] e.ev = "EndRun" -> ObsEndRun(e)
     [] OTHER           -> Fail("C06/harness/unknown-event")
